@@ -940,6 +940,18 @@ def call_method(I, recv, name, args, kwargs):
             return None
         if name in ('union', 'intersection', 'difference'):
             return getattr(recv, name)(*[set(I.iterate_concrete(x)) for x in args])
+        if name == 'update':
+            for a_ in args:
+                for x in I.iterate_concrete(a_):
+                    recv.add(L.hashable(x))
+            return None
+        if name in ('discard', 'remove') and len(args) == 1:
+            k_ = L.hashable(args[0])
+            if k_ in recv:
+                recv.discard(k_)
+            elif name == 'remove':
+                raise PyExc('KeyError', repr(k_))
+            return None
     if isinstance(recv, SSeq):
         return seq_method(I, recv, name, args, kwargs)
     if isinstance(recv, SArr):
@@ -1155,6 +1167,17 @@ def str_method(I, s, name, args, kwargs):
         return s
     if name in ('lower', 'upper', 'strip', 'lstrip', 'rstrip', 'title', 'casefold'):
         return I.env.str_fun(I, name, s, args)
+    if name == 'partition' and len(args) == 1 and isinstance(args[0], str) and args[0]:
+        # (head, sep, tail) at the first occurrence of a literal separator, or (s, '', '')
+        idx = str_method(I, s, 'find', [args[0]], {})
+        if isinstance(idx, int):
+            if idx < 0:
+                return (s, '', '')
+            return (L.slice_(I, s, L.SliceVal(None, idx, None)), args[0], L.slice_(I, s, L.SliceVal(idx + len(args[0]), None, None)))
+        if I.branch(I.term(idx) < 0):
+            return (s, '', '')
+        after = I.binop(ast.Add, idx, len(args[0]))
+        return (L.slice_(I, s, L.SliceVal(None, idx, None)), args[0], L.slice_(I, s, L.SliceVal(after, None, None)))
     if name == 'split':
         return split_method(I, s, args, kwargs)
     if name in ('isspace', 'isalpha', 'isupper', 'islower', 'isalnum'):
